@@ -35,6 +35,17 @@ Record snapshot := mkSnap {
   sn_alive : list N; sn_xlocal : list (N * ent);
 }.
 
+(* what one command parks in / claims from the trackers (ghost bookkeeping for C03) *)
+Inductive pitem := PiSe (d : ent) | PiEr (src : ent) (rt : ertype) | PiDe (src : ent) | PiEv (d : ent).
+Definition pitem_eqb (a b : pitem) : bool :=
+  match a, b with
+  | PiSe x, PiSe y | PiDe x, PiDe y | PiEv x, PiEv y => N.eqb x y
+  | PiEr x r, PiEr y r' => N.eqb x y && ertype_eqb r r'
+  | _, _ => false
+  end.
+Fixpoint pitems_eqb (a b : list pitem) : bool :=
+  match a, b with [], [] => true | x :: a', y :: b' => pitem_eqb x y && pitems_eqb a' b' | _, _ => false end.
+
 Inductive ev :=
 | EvMark (o : occ)
 | EvRun (s : ent) (runno captured : N) (sm : sample)
@@ -101,13 +112,15 @@ Record world := mkWorld {
   (* harness-level name binding *)
   bound : list N; tokens : list (N * token);
   spawned : list N;                                 (* ghost: system entities whose storage was ever installed *)
+  g_prep : list (N * ent * list pitem);             (* ghost: (ticket, system, entries parked) per command, in issue order *)
+  g_claim : list (N * ent * list pitem);            (* ghost: (ticket, system, entries claimed) per successful setup *)
   (* observation *)
   log : list ev;
 }.
 #[export] Instance eta_world : Settable _ := settable! mkWorld
   <alive; comps; storage; cbs; ereactors; dtrackers; dataents; xlocals; resvals; removed; removed_seq; generation; next_ent;
    sigs; next_sig; gc_chan; comp_tbl; desp_tbl; any_tbl; res_tbl; bc_tbl; removal_checkers; despawn_chan;
-   counter; buffer; ticket_ctr; tr_ev; tr_se; tr_er; tr_de; bound; tokens; spawned; log>.
+   counter; buffer; ticket_ctr; tr_ev; tr_se; tr_er; tr_de; bound; tokens; spawned; g_prep; g_claim; log>.
 
 Definition FIRST_INTERNAL : N := 1000000.
 Definition PLACEHOLDER : N := 500000.
@@ -121,9 +134,11 @@ Definition init_world : world := {|
   comp_tbl := []; desp_tbl := []; any_tbl := []; res_tbl := []; bc_tbl := []; removal_checkers := []; despawn_chan := [];
   counter := 0; buffer := []; ticket_ctr := 0;
   tr_ev := empty_trk 0; tr_se := empty_trk 0; tr_er := empty_trk (0, 0, RIns UNIT_TY); tr_de := empty_trk (0, None);
-  bound := []; tokens := []; spawned := []; log := [] |}.
+  bound := []; tokens := []; spawned := []; g_prep := []; g_claim := []; log := [] |}.
 
 Definition emit (e : ev) (w : world) : world := w <| log ::= fun l => l ++ [e] |>.
+Definition note_claim (k : N) (s : ent) (items : list pitem) (w : world) : world := w <| g_claim ::= fun l => l ++ [(k, s, items)] |>.
+Definition note_prep (k : N) (s : ent) (items : list pitem) (w : world) : world := w <| g_prep ::= fun l => l ++ [(k, s, items)] |>.
 Definition is_alive (e : ent) (w : world) : bool := memN e (alive w).
 
 (* ---------- Arc<AutoDespawnSignalInner> (src/ecs/auto_despawn.rs:12-37) ---------- *)
@@ -331,17 +346,28 @@ Definition try_cleanup_data_entity (d : ent) (w : world) : world :=
 (* ---------- setup / cleanup (commands.rs:26-91) ---------- *)
 Definition run_setup (su : setup) (s : ent) (w : world) : option world :=
   match su with
-  | SuDefault => Some w
-  | SuSysEvent k => match trk_start true k s (tr_se w) with Some t => Some (emit (EvSetup k) (w <| tr_se := t |>)) | None => None end
-  | SuEntity k => match trk_start true k s (tr_er w) with Some t => Some (emit (EvSetup k) (w <| tr_er := t |>)) | None => None end
-  | SuDespawn k => match trk_start false k s (tr_de w) with Some t => Some (emit (EvSetup k) (w <| tr_de := t |>)) | None => None end
+  | SuDefault => Some (note_claim 0 s [] w)
+  | SuSysEvent k => match trk_start true k s (tr_se w) with Some t => Some (emit (EvSetup k) (note_claim k s [PiSe (cur t)] (w <| tr_se := t |>))) | None => None end
+  | SuEntity k => match trk_start true k s (tr_er w) with Some t => Some (emit (EvSetup k) (note_claim k s [PiEr (snd (fst (cur t))) (snd (cur t))] (w <| tr_er := t |>))) | None => None end
+  | SuDespawn k => match trk_start false k s (tr_de w) with Some t => Some (emit (EvSetup k) (note_claim k s [PiDe (fst (cur t))] (w <| tr_de := t |>))) | None => None end
   | SuEntityEvent k =>
       match trk_start true k s (tr_er w) with
       | Some t => let w := w <| tr_er := t |> in
-                  match trk_start true k s (tr_ev w) with Some t' => Some (emit (EvSetup k) (w <| tr_ev := t' |>)) | None => None end
+                  match trk_start true k s (tr_ev w) with Some t' => Some (emit (EvSetup k) (note_claim k s [PiEr (snd (fst (cur t))) (snd (cur t)); PiEv (cur t')] (w <| tr_ev := t' |>))) | None => None end
       | None => None end
-  | SuBroadcast k => match trk_start true k s (tr_ev w) with Some t => Some (emit (EvSetup k) (w <| tr_ev := t |>)) | None => None end
+  | SuBroadcast k => match trk_start true k s (tr_ev w) with Some t => Some (emit (EvSetup k) (note_claim k s [PiEv (cur t)] (w <| tr_ev := t |>))) | None => None end
   end.
+
+(* ghost: what the readers can see (one item per tracker whose flag is on), and the claim of the latest setup *)
+Definition visible (w : world) : list pitem :=
+  (if reacting (tr_se w) then [PiSe (cur (tr_se w))] else []) ++
+  (if reacting (tr_er w) then [PiEr (snd (fst (cur (tr_er w)))) (snd (cur (tr_er w)))] else []) ++
+  (if reacting (tr_de w) then [PiDe (fst (cur (tr_de w)))] else []) ++
+  (if reacting (tr_ev w) then [PiEv (cur (tr_ev w))] else []).
+Definition last_claim (w : world) : N * ent * list pitem := last (g_claim w) (0, 0, []).
+(* the assertion checked at the start of every body: the readers expose exactly what this run's own setup claimed *)
+Definition fresh_claim_b (t : ent) (w : world) : bool :=
+  N.eqb (snd (fst (last_claim w))) t && pitems_eqb (visible w) (snd (last_claim w)).
 
 Definition run_cleanup (cl : cleanup) (w : world) : world :=
   match cl with
